@@ -111,7 +111,7 @@ def joint_angles_fwd(ctx, b):
     out = {}
     for bi, t in b.calls():
         if cname(callee_name(t)) in ('f64::sin_cos', 'f64::sin', 'f64::cos'):
-            a = inline(ctx.prog, b.op_term(t['args'][0], (bi, None)))
+            a = inline(ctx.prog, util.peval(ctx.prog, b.op_term(t['args'][0], (bi, None))))
             js = {util.const_val(x[2]) for x in mir.subterms(a, lambda x: x[0] == 'idx' and util.is_param(x[1], 2))}
             if len(js) == 1:
                 out.setdefault(js.pop(), a)
@@ -162,7 +162,7 @@ def spec_forward(q):
 def closed_form(ctx, fwd, qa):
     """R03.5"""
     ring = TrigRing(unit_square=sign_atom)
-    rt = strip(inline(ctx.prog, fwd.return_term()))      # helper methods / closures computing the joint convention are written out
+    rt = strip(inline(ctx.prog, util.peval(ctx.prog, fwd.return_term())))      # helper methods / closures computing the joint convention are written out
     if not ctx.check(isinstance(rt, tuple) and rt[0] == 'call' and cname(rt[1]).endswith('::from_parts'), 'R03.5', 'shape', fwd.where(0), fwd.path, 'forward must return from_parts(translation, rotation)'):
         return
     tr, rot = strip(rt[2]), strip(rt[3])
@@ -238,7 +238,7 @@ def run(ctx):
     # ---- chain
     ret = strip(fwp.return_term())
     ctx.require(isinstance(ret, tuple) and ret[0] == 'agg' and ret[1] == 'array' and len(ret) == 8, 'forward_with_joint_poses returns an array of six poses')
-    elems = [strip(inline(prog, x)) for x in ret[2:]]
+    elems = [strip(inline(prog, util.peval(prog, x))) for x in ret[2:]]
     prev = None
     for k, e in enumerate(elems):
         key = 'link%d' % (k + 1)
